@@ -236,6 +236,16 @@ impl<C: NtpClock> Server<C> {
                 }
             }
             Err(PacketParsingError::DecryptError(packet)) => {
+                // Only client mode packets are ever answered, also when they fail to decrypt
+                if packet.mode() != crate::NtpAssociationMode::Client {
+                    stats_handler.register(
+                        fallback_message_version(message),
+                        false,
+                        ServerReason::ParseError,
+                        ServerResponse::Ignore,
+                    );
+                    return Err(ServerAction::Ignore);
+                }
                 // Don't care about decryption errors when denying anyway
                 if action != ServerResponse::Deny {
                     action = ServerResponse::NTSNak;
